@@ -327,12 +327,18 @@ M_COLUMN.harnesses.append(H("u19_hash_column_maintenance_reaches_every_table", "
 M_BTTREE = KModule("btree_tree", "src/btree/btree.rs", "verif_btree_tree", "btree_tree.rs")
 M_BTTREE.harnesses.append(H("u23_root_bookkeeping", "U23", kind="bounded", shape="BTree::write_sorted_changes, one change, scripted child outcome (no-op / root split / root collapse)",
                             bound="one change per call; Node::{change,need_remove_root}, BTree::fetch_root, BTreeTable::{write_node_plan,write_plan_remove_node} by contract"))
-M_DB = KModule("db", "src/db.rs", "verif_db", "db.rs", deps=(M_LOG,))
+M_DB = KModule("db", "src/db.rs", "verif_db", "db.rs", deps=(M_LOG, M_TABLE, M_INDEX, M_COLUMN))
 M_DB.harnesses.append(H("u21_replay_applies_only_the_next_record_in_sequence", "U21", kind="bounded",
                         shape="DbInner::enact_logs(validation) on one empty record with arbitrary record id and arbitrary last-enacted id",
                         bound="a database without columns and a record without actions; Log::{read_next,end_read,clear_replay_logs} and LogReader::{next,reset} by contract"))
 
 M_DB.harnesses.append(H("u24_operations_are_ordered_by_key_only", "U24"))
+for n in ["u30_get_consults_commit_overlay_then_column", "u30_get_size_is_the_length_of_what_get_returns"]:
+    M_DB.harnesses.append(H(n, "U30", kind="bounded", shape="DbInner::%s on a database with one hash column; overlay state and column content scripted (arbitrary)" % ("get_size" if "size" in n else "get"),
+                            bound="one hash column; CommitOverlay::get_ref, HashColumn::{hash_key,get} by contract"))
+for n in ["u29_get_searches_current_then_every_queued_index", "u29_get_size_is_the_length_of_the_value"]:
+    M_COLUMN.harnesses.append(H(n, "U29", kind="bounded", shape="HashColumn::%s with an 18-bit current index and two queued older indexes; get_in_index by contract" % ("get_size" if "size" in n else "get"),
+                                bound="two queued old indexes; HashColumn::get_in_index by contract (U13)"))
 
 # units whose harnesses call the real code without recorder / contract stubs: Kani's counterexample replays natively
 NATIVE_REPLAY_UNITS = {"U1", "U2", "U4", "U5", "U7", "U11"}
@@ -365,7 +371,7 @@ PROPS = {
 TB = ["rustc, Kani 0.68, CBMC 6.11, kissat/CaDiCaL, Verus 0.2026.09.13, Z3 (the verifiers themselves)"]
 
 PROPS["C09"] = {
-    "kani_units": ["U1", "U2b", "U3", "U4", "U15", "U22"],
+    "kani_units": ["U1", "U2b", "U3", "U4", "U15", "U22", "U29"],
     "verus_units": ["index_search", "lookup_chain"],
     "level": "other",
     "technique": "Kani/CBMC contracts on the real index codec, page update and key recovery (complete over all pages/keys/index sizes) + Verus proof of the real collision-chain lookups against callee contracts",
@@ -499,6 +505,8 @@ UNIT_META = {
     "U22": {"functions": ["column::HashColumn::{trigger_reindex,drop_index}"], "assumes": ["IndexTable::drop_file replaced by a counter (file removal)"]},
     "U23": {"functions": ["btree::btree::BTree::write_sorted_changes"], "assumes": ["Node::change / need_remove_root / BTree::fetch_root / BTreeTable::write_node_plan / write_plan_remove_node replaced by contracts (scripted outcomes)"]},
     "U24": {"functions": ["db::Operation::{cmp,partial_cmp,key}"], "assumes": []},
+    "U29": {"functions": ["column::HashColumn::{get,get_size}"], "assumes": ["HashColumn::get_in_index replaced by its contract (proved against its own callees by Verus, unit lookup_chain)"]},
+    "U30": {"functions": ["db::DbInner::{get,get_size} (hash column branch)", "db::CommitOverlay::{get,get_size}"], "assumes": ["CommitOverlay::get_ref (std HashMap lookup) replaced by its contract: the latest queued write for the key, if any", "HashColumn::hash_key replaced by a scripted key (the same hashed key must reach overlay and column)", "HashColumn::get replaced by its contract (U29)"]},
     "U26": {"functions": ["log::LogWriter::{insert_index,insert_ref_count}"], "assumes": ["RandomState::new stubbed to fixed keys (hash seeds do not affect map semantics)", "chunk numbers are concrete (5 and 9): the map is the real std HashMap"]},
     "U11": {"functions": ["column::{unpack_node_data,unpack_node_children,packed_node_size,packed_child_count}"], "assumes": []},
     "U14": {"functions": ["table::ValueTable::{clear_slot,next_free,read_next_free,complete_plan,write_remove_plan,clear_chain}"], "assumes": ["LogWriter ghost view"]},
@@ -606,3 +614,15 @@ PROPS["C06"].update({
     "claim": "Proved for all inputs: entry-header codec round trips, size/flag words never collide with the four markers (the record classifier is a partition), value_size arithmetic, SIZES strictly increasing and tier selection minimal and total. Bounded (entry sizes 32/33/48/64, <= 3 parts, empty values included): overwrite_chain in insert / replace / claimed mode emits exactly the on-disk format FMT for (key, rc=1, value, compressed) on the slots popped LIFO from the free list then taken from the fill mark, releases every surplus old part as a tombstone linked in front of the free list, and keeps filled/last_removed/dirty_header exact; query/size/partial_key_at/has_key_at map any FMT chain back to (value, flag, rc) and reject tombstones, continuation parts, zero counters and foreign keys. Bounded, callees by contract (3+1 tiers of arbitrary sizes): overwriting a present key replaces in place when the new value selects the same tier and otherwise releases the old entry and inserts into the selected tier, reporting the new address. Read-after-write, overwrite to any other length, and release-and-reuse follow by composition through FMT (on paper).",
     "does_not_cover": ["real part size 4096 / MiB values", "lz4 / snappy themselves", "reads through the mmap'd file (only the log view is modelled)", "composition over histories of overwrites (argued through FMT, not mechanised)"],
 })
+
+PROPS["C01"] = {
+    "kani_units": ["U30", "U29", "U15", "U8d"],
+    "verus_units": ["overlay_publish", "lookup_chain"],
+    "level": "other",
+    "technique": "Kani/CBMC modular contracts on the real read path (DbInner::get / get_size, HashColumn::get) and write dispatch, Verus contracts on commit-overlay publication and the collision-chain lookup; one contract per pipeline stage, composed on paper",
+    "claim": "Per-stage contracts of the hash-column map, each on the real code with its callees replaced by contracts: (queued) a commit publishes exactly the in-order fold of its operations into the commit overlay, last operation on a key wins (Verus, unbounded); (read) DbInner::get / get_size look the hashed key up in the commit overlay first -- a queued value wins, a queued removal hides whatever the tables hold, the column is not consulted -- and otherwise return what the column holds, get_size being the length of exactly the value get returns (Kani, bounded: one column, scripted overlay and column states); (column read) HashColumn::get searches the current index and then every queued older index in order, first hit wins, absent only after all were searched; within an index the collision chain never stops at a foreign key and never skips a match (Verus, unbounded); (apply) a write plan replaces / inserts / removes exactly the entry of the key in the index it lives in (Kani, bounded). The statement's quantification over pipeline progress (queued, logged, synced, applied, reclaimed), reopen and arbitrary histories is a composition over these stages and is not mechanised.",
+    "level_note": "Every unit replaces its callees by contracts (listed in the evidence); the hand-over between stages (clean_overlay removing an entry from the commit overlay only once the log overlay holds it, log overlay to file) is concurrency / history and is not covered. Value bytes through the table layer are decided (boundedly) under C06.",
+    "trusted_base": TB,
+    "explanation": "Modular contracts per stage; bounded where a unit constructs a column or database value. Level 'other': the end-to-end statement over histories and schedules is not mechanised.",
+    "does_not_cover": ["hand-over between pipeline stages (clean_overlay, log overlay retirement)", "clean close and reopen", "keys of any length (hash_key / blake2 is a contract)", "btree columns (C04)"],
+}
